@@ -70,6 +70,29 @@ pub fn log_read_all_with_status(
     }
 }
 
+/// Like [`log_read_all_with_status`], additionally reporting `LogReader::encountered_corruption`
+/// (what manifest recovery consults to refuse a damaged manifest).
+pub fn log_read_all_with_flags(
+    fs: Arc<dyn FileSystem>,
+    path: &Path,
+) -> Result<(Vec<Vec<u8>>, Option<String>, bool, bool), String> {
+    let mut reader = LogReader::new(fs, path, 0).map_err(|e| e.to_string())?;
+    let mut records = vec![];
+    loop {
+        match reader.read_record() {
+            Ok((_, true)) => {
+                let clean = reader.was_read_cleanly_to_end().unwrap_or(false);
+                return Ok((records, None, clean, reader.encountered_corruption()));
+            }
+            Ok((data, false)) => records.push(data),
+            Err(e) => {
+                let corrupted = reader.encountered_corruption();
+                return Ok((records, Some(e.to_string()), false, corrupted));
+            }
+        }
+    }
+}
+
 /// One call on a `FilterBlockBuilder`.
 #[derive(Clone, Debug)]
 pub enum FilterOp {
